@@ -1,10 +1,135 @@
-(* Props/C18.v — property C18: statements only.  Each theorem is closed by `exact`. *)
+(* Props/C18.v — property C18: statements only.  Each theorem is closed by `exact`.
+
+   Layers: L0 plain map (Dl/Map.v), L1 tree (Dl/Tree.v), L2 blob mirror (Dl/Blob.v).
+   H : bytes -> bytes is an arbitrary hash function; the only assumption made of it is that it never
+   returns the empty string (the Auto insert location reads a seed byte), stated where needed.
+   KnownClass = known_hist / known_top / known_hist2 (Dl/History.v): batch_insert the plain map rejects
+   (duplicate key or hash: F-C18-1, F-C18-3), upsert with the hash of another leaf (F-C18-2),
+   insert at a stale block index (F-C18-4). *)
+From Coq Require Import Permutation.
 From ChiaV.Base Require Import Bytes Sha256.
 From ChiaV.Gen Require Import Dl.
-From ChiaV.Dl Require Import Format Map Tree Blob Abs History Spec Refuted.
+From ChiaV.Dl Require Import Format Map Tree Blob Abs Inv History Spec FormatProofs Refuted TreeProofs BlobLemmas BlobOps.
 Open Scope N_scope.
 
-(* ---- known finding classes: the faithful model violates C18 there (witnesses replayed on the code) ---- *)
+(* ================= L1 -> L0, all histories ================= *)
+
+(* every L1 operation outside the known classes has the effect of the plain-map operation:
+   same success/failure, the refinement relation (same entries, duplicate-free keys and hashes,
+   tree well-formed) is preserved, and a failed operation leaves the tree unchanged *)
+Theorem C18_tree_op_refines_map : forall H, (forall x, H x <> []) -> forall o ot m,
+  tree_refines H ot m -> known_top m o = false ->
+  let '(ok1, ot1) := step1 H o ot in
+  let '(ok0, m0) := step0 o m in
+  ok1 = ok0 /\ tree_refines H ot1 m0 /\ (ok1 = false -> ot1 = ot).
+Proof. exact step_refines. Qed.
+
+(* induction over the operation list, no bound *)
+Theorem C18_tree_history_refines_map : forall H, (forall x, H x <> []) -> forall ops,
+  known_hist ops [] = false -> tree_refines H (run1 H ops None) (run0 ops []).
+Proof. intros H Hne ops. exact (history_refines H Hne ops None [] (R_empty H)). Qed.
+
+(* lazy hashing: the root equals the independent recursive recomputation, everything is clean *)
+Theorem C18_root_is_recomputation : forall H t, twf H t ->
+  t_hash (t_rehash H t) = merkle H t /\ twf H (t_rehash H t) /\ t_all_clean (t_rehash H t) = true.
+Proof. intros H t Hw. split; [exact (rehash_root H t Hw)|exact (rehash_twf H t Hw)]. Qed.
+
+(* on a hashed tree every key has a proof of inclusion that is valid, ends in the root and starts
+   at the leaf hash the map holds for the key *)
+Theorem C18_proofs_valid : forall H t k, twf H t -> t_all_clean t = true -> In k (tkeys t) ->
+  exists p, t_proof k t = Some p /\ proof_valid H p = true /\ proof_root_hash p = t_hash t /\
+            exists v, m_get k (t_kv t) = Some (v, p_node_hash p).
+Proof. exact proofs_valid. Qed.
+
+(* the two together, for every history followed by calculate_lazy_hashes *)
+Theorem C18_history_root_and_proofs : forall H, (forall x, H x <> []) -> forall ops,
+  known_hist ops [] = false ->
+  let m := run0 ops [] in
+  match run1 H (ops ++ [THash]) None with
+  | None => m = []
+  | Some t =>
+      Permutation (t_kv t) m /\ t_hash t = merkle H t /\
+      forall k, m_mem k m = true ->
+        exists p, t_proof k t = Some p /\ proof_valid H p = true /\ proof_root_hash p = t_hash t /\
+                  exists v, m_get k m = Some (v, p_node_hash p)
+  end.
+Proof. exact history_root_and_proofs. Qed.
+
+(* ================= L2: format ================= *)
+
+(* every in-range block fits in BLOCK_SIZE bytes of the translated layout and decodes to itself *)
+Theorem C18_block_codec : forall b, wf_block b ->
+  exists bs, encode_block b = Ok bs /\ length bs = N.to_nat BLOCK_SIZE /\ decode_block bs = Ok b.
+Proof. exact encode_block_ok. Qed.
+
+(* ================= L2 -> L1, staged per operation ================= *)
+
+(* the Prop invariant implies what the executable abstraction computes on every history of the stream *)
+Theorem C18_inv_abs : forall H s t, Inv_tree H s t -> abs s = Some (Some (erase t)).
+Proof. exact Inv_tree_abs. Qed.
+
+(* mark_lineage_as_dirty: marks exactly the ancestors (stopping early is sound because dirty is
+   upward closed), touches no other block, no cache, not the free list *)
+Theorem C18_blob_mark_lineage : forall c s hole fuel,
+  ctx_rep s c hole -> closed c -> blen_ok s -> NoDup (ctx_indices c) -> hole < 2 ^ 32 -> Forall wf_frame c ->
+  (forall f, In f c -> ~ In (fr_idx f) (free s)) ->
+  (length c < fuel)%nat ->
+  match c with
+  | [] => True
+  | f :: _ =>
+      exists s', mark_lineage fuel (fr_idx f) s = (Ok tt, s') /\
+        ctx_rep s' (map set_dirty c) hole /\
+        (forall j, ~ In j (map fr_idx c) -> get_block s' j = get_block s j) /\
+        nblocks s' = nblocks s /\ blen_ok s' /\ free s' = free s /\ k2i s' = k2i s /\ h2i s' = h2i s
+  end.
+Proof. exact mark_ctx. Qed.
+
+(* upsert of a present key: Inv preserved, L1 effect.  The hypothesis on h is exactly the
+   complement of class F-C18-2 and is what the proof needs (the code does not check it). *)
+Theorem C18_blob_upsert_refines_tree : forall H s t k v h,
+  Inv_tree H s t -> v < 2 ^ 64 -> length h = HASH_BYTES ->
+  In k (it_keys t) ->
+  (forall i' k' v', In (i', k', v', h) (it_leaves t) -> k' = k) ->
+  exists s' t', upsert H k v h s = (Ok tt, s') /\ Inv_tree H s' t' /\
+    t_upsert H k v h (Some (erase t)) = (true, Some (erase t')).
+Proof. exact upsert_existing. Qed.
+
+(* insert into the empty blob (Auto or AsRoot) *)
+Theorem C18_blob_insert_first_refines_tree : forall H k v h loc,
+  k < 2 ^ 64 -> v < 2 ^ 64 -> length h = HASH_BYTES -> loc = LAuto \/ loc = LRoot ->
+  exists s', insert H k v h loc empty_blob = (Ok 0, s') /\ Inv_tree H s' (ILeaf 0 k v h) /\
+    t_insert H k v h (match loc with LAuto => TAuto | _ => TRoot end) None = (true, Some (erase (ILeaf 0 k v h))).
+Proof. exact insert_first_ok. Qed.
+
+(* delete of the only leaf clears the blob *)
+Theorem C18_blob_delete_last_refines_tree : forall H s i k v h,
+  Inv_tree H s (ILeaf i k v h) ->
+  delete k s = (Ok tt, empty_blob) /\ t_delete k (Some (erase (ILeaf i k v h))) = (true, None).
+Proof. exact delete_last_ok. Qed.
+
+(* FULL STATEMENT (not proved; see notes/dl.md):
+     forall H ops, (forall x, H x <> []) -> ops_in_range ops -> known_hist2 H ops empty_blob [] = false ->
+       let '(s, m, fine) := run_joint H ops empty_blob [] in
+       fine = true /\ Inv H s /\ good_state H s m
+   i.e. every operation preserves Inv with the L1 effect, check_integrity = Ok, reload (bytes s) equivalent to s.
+   Proved: the theorems above (insert into empty, delete of the last leaf, upsert of a present key,
+   mark_lineage_as_dirty, the codec, Inv => abs).  Missing: insert_second / insert_third_or_later / Auto walk,
+   delete with sibling promotion, batch_insert, calculate_lazy_hashes, check_integrity and reload from Inv.
+   For those the link is validated by execution: abs, inv_b, reload equivalence and the L1 step are
+   evaluated by the model runner after every operation of every history (flag 'a' in stream dl.hist). *)
+Theorem C18_blob_history_refines_map_partial : forall H s t k v h,
+  Inv_tree H s t -> v < 2 ^ 64 -> length h = HASH_BYTES -> In k (it_keys t) ->
+  (forall i' k' v', In (i', k', v', h) (it_leaves t) -> k' = k) ->
+  exists s' t', step2 H (OUpsert k v h) s = (Ok None, s') /\ Inv_tree H s' t' /\
+    abs s = Some (Some (erase t)) /\ abs s' = Some (Some (erase t')) /\
+    step1 H (TUpsert k v h) (Some (erase t)) = (true, Some (erase t')).
+Proof. exact upsert_step_link. Qed.
+
+(* ================= non-vacuity ================= *)
+Example C18_invariant_inhabited : exists s t, Inv_tree sha256 s t /\ abs s = Some (Some (erase t)).
+Proof. exact inv_inhabited. Qed.
+
+(* ================= known finding classes: the faithful model violates C18 there ================= *)
 (* F-C18-1 *)
 Theorem C18_batch_duplicate_refuted :
   exists items, known_top [] (TBatch items) = true /\
